@@ -8,29 +8,30 @@ use std::collections::HashMap;
 use std::sync::Mutex;
 
 pub struct Child<const N: usize> {
-    filter: CombinedFilter<ArrayKey<N>>,
+    /// None: a child that cannot say anything about its content (`get_filter() = None`, like a storage without closed blobs)
+    filter: Option<CombinedFilter<ArrayKey<N>>>,
 }
 
 #[async_trait::async_trait]
 impl<const N: usize> BloomProvider<ArrayKey<N>> for Child<N> {
     type Filter = CombinedFilter<ArrayKey<N>>;
     async fn check_filter(&self, item: &ArrayKey<N>) -> FilterResult {
-        self.filter.contains_fast(item)
+        self.filter.as_ref().map_or(FilterResult::NeedAdditionalCheck, |f| f.contains_fast(item))
     }
     fn check_filter_fast(&self, item: &ArrayKey<N>) -> FilterResult {
-        self.filter.contains_fast(item)
+        self.filter.as_ref().map_or(FilterResult::NeedAdditionalCheck, |f| f.contains_fast(item))
     }
     async fn offload_buffer(&mut self, _needed_memory: usize, _level: usize) -> usize {
-        self.filter.offload_filter()
+        self.filter.as_mut().map_or(0, |f| f.offload_filter())
     }
     async fn get_filter(&self) -> Option<Self::Filter> {
-        Some(self.filter.clone())
+        self.filter.clone()
     }
     fn get_filter_fast(&self) -> Option<&Self::Filter> {
-        Some(&self.filter)
+        self.filter.as_ref()
     }
     async fn filter_memory_allocated(&self) -> usize {
-        self.filter.memory_allocated()
+        self.filter.as_ref().map_or(0, |f| f.memory_allocated())
     }
 }
 
@@ -106,7 +107,13 @@ pub async fn cmd_hier<const N: usize>(ctx: &mut Ctx, args: &[&str]) {
                     filter.add(&key_of::<N>(k));
                 }
             }
-            let id = h.push(Child { filter }).await;
+            let id = h.push(Child { filter: Some(filter) }).await;
+            put!(h);
+            ctx.emit(format!("hier push {}", id));
+        }
+        ["pushnone"] => {
+            let mut h = take!();
+            let id = h.push(Child { filter: None }).await;
             put!(h);
             ctx.emit(format!("hier push {}", id));
         }
